@@ -349,7 +349,7 @@ func replayConcurrent(c *Ctx, r *Replay) (bool, string) {
 // merge): the start state of the lexer has more classes than any table-size threshold a code
 // generator might switch strategies at; goroutines read different characters.
 func wideAlphabetSyn() *SynGrammar {
-	g := &SynGrammar{NTs: []string{"S", "X"}}
+	g := &SynGrammar{NTs: []string{"Start", "Item"}}
 	for _, r := range "acegikmoqsuwyACEGIKMOQSUWY02468+*/=<>(){}" {
 		g.Terms = append(g.Terms, string(r))
 		g.IsLit = append(g.IsLit, true)
